@@ -40,6 +40,10 @@ CLAIMED['C16'] = ('Lean proof: the three im2col / col2im models equal one specif
          'Theorems for every geometry with a window, any pad value, any data: the index-array, double-loop and strided-view im2col all equal cols[n,(c*kH+a)*kW+b,i*lW+j] = xpad[n,c,i*sH+a*dH,j*sW+b*dW]; the three col2im equal the scatter-add of that map; <im2col x, y> = <x, col2im y>; extract_windows / place_windows are adjoint; fold(unfold x) multiplies each pixel by the number of covering windows. Each real implementation (3 + 3 + extract / place, both layouts, int and tuple kernel sizes) is compared with its own model on integer-valued data over a geometry grid; implementation-side relations (bitwise agreement of the variants, adjoint identity in exact integers, coverage) are checked too.', '6 C16')
 CLAIMED['C09'] = ('Lean proofs over the reals (exactness of the shifted formulas, range of every intermediate) + the model kernels executed at Float32 and Float against the implementation',
          'PARTIAL by nature. Proved over the reals: exp(100) exceeds the float32 maximum (so shifts are necessary); after the max-shift every softmax exponent is <= 0, each exp in (0,1], the sum in [1,n], outputs in (0,1]; the shift and the log-sum-exp rearrangement change nothing (softmax, log_softmax, cross-entropy exact, logarithm in [0, log n]); sigmoid in (0,1), overflow of exp(-x) annihilated by 1/(1+E) <= 1/E; sigmoid and tanh backward factors bounded; selu backward evaluates exp(min(x,0)) in (0,1]; BCE-with-logits exponents <= 0 and value exactly (1-y)x + log(1+exp(-x)). Rounding and IEEE overflow are not proved: the same kernels are run at Float32 / Float and compared with the implementation on the magnitude table up to 1e4 and random rows; the failing-input search compares with 50-digit mpmath.', '6 C09')
+CLAIMED['C06'] = ('Lean proofs of the nn-op definitions and layer argument rules + correspondence over the geometry grid',
+         'Theorems: conv output length = floor((L+2p-d(k-1)-1)/s)+1 = number of windows that fit, none exactly when no window fits; conv1d is the cross-correlation sum with zero padding; padding=same keeps the length for stride 1 when d(k-1) is even and is rejected otherwise; int-or-tuple broadcasting and default stride = kernel; max pooling never selects padding and dominates the real window entries; average pooling divides the zero-padded window sum by the full kernel size; NLL picks minus the prediction at the label with one value per sample. Forward values of all nn ops (C02 generators, malformed configurations included), loss modules under every reduction and geometry layers built from int/tuple/same/valid arguments are compared with the model; torch.nn.functional is the oracle of the failing-input search.', '6 C06')
+CLAIMED['C14'] = ('Lean proofs of the identities on the model + both sides evaluated on model and implementation',
+         'Theorems: linear = x @ W.T (+ b), addmm = a + b @ c, cross-entropy = NLL of log_softmax, mean = sum / count, flatten = reshape, a - b = a + (b * -1), a / b = a * b ** -1 (by definition of the model, whose fused forms are validated against the implementation), stack = concat of unsqueezed, unbind inverts stack, movedim between adjacent dims = transpose (index-level proofs). For 16 identities (also BCE-with-logits | BCE of sigmoid, log_softmax | log of softmax, conv | unfold+matmul, pooling | unfold+max/mean, Neuron) both sides are built over shared leaves; values and the gradients of every leaf after backward with the same upstream gradient must agree on the implementation, on the model, and between them. Identities through the 1e-12 guard use tolerance 1e-6 on moderate logits.', '6 C14')
 PENDING = {}
 ALL = [f'C{i:02d}' for i in range(1, 21)]
 
